@@ -8,6 +8,10 @@ mutator   python task `Mutator(x: Any, prog, log)`: walks `path` into x and appl
 file_any  python task with a `File` input (default copy mode), body appends to / rewrites / reads
           the file it is given;  file_copy: the same with copy_mode="copy".
 sh_any / sh_copy   shell task `sh script <x> <log>` whose script appends to (or reads) its file.
+file_two / sh_two  python / shell task with TWO file fields a, b:
+          {..., "modes": [mode of a, mode of b] (any|copy, as declared), "same": bool (both fields
+          are given the SAME file), "write": 0|1 (the body works on the file it received through
+          field a / b)}
 
 Whether a case mutates is *derived*: the program is applied to a twin of the value first.
 """
@@ -30,10 +34,14 @@ RULE = (
     "float numpy arrays, list inside tuple, list inside dict, dict inside object, set inside attrs "
     "inside list) x every applicable in-place action on the (innermost) mutable target + one "
     "read-only program, and 4 file tasks (python/shell x copy mode any/copy) x {append, rewrite, "
-    "read}, each under the debug and the cf worker (106 cases; quick tier 85: cf gets the first action + read per value); plus Hypothesis-generated values of "
+    "read}, and 2 tasks (python/shell) with two file fields x declared copy modes (any,copy | copy,any | "
+    "copy,copy - python only) x {two files, the same file given to both fields} x field whose file the body works "
+    "on x {append, rewrite, read}, each under the debug and the cf worker (210 cases; quick tier 147: "
+    "cf gets the first action + read per value, and of the two-field tasks the appends to a shared file); plus Hypothesis-generated values of "
     "the section 3.3 grammar (depth <= 3, arrays included) with a random mutable target and action. "
     "Oracle: the caller's object / file is compared with an untouched twin; a changed non-copy "
-    "input must be reported as an error, a copy-mode file must keep its bytes, an unmodified input "
+    "input must be reported as an error, a copy-mode file must keep its bytes (two fields: when the "
+    "body works on what it received through a copy-mode field, every original keeps its bytes), an unmodified input "
     "must not produce an error, and the only job directory created is named by the checksum "
     "computed before the run. Non-trivial = the program mutates; distinct = (task, value, "
     "program, worker)."
@@ -55,8 +63,10 @@ ASSUMPTIONS = [
 ]
 SHARDS = {"quick": 16, "thorough": 16}
 EXHAUSTIVE_WHEN_COMPLETED = True
-EXHAUSTIVE_NOTE = ("the mutation pool: values x actions x workers, file tasks x actions x workers (106 cases; "
-                   "quick tier: 85 - under cf only the first action and the read per value)")
+EXHAUSTIVE_NOTE = ("the mutation pool: values x actions x workers, file tasks x actions x workers, two-field "
+                   "file tasks x modes x same/different file x written field x actions x workers (210 cases; "
+                   "quick tier: 147 - under cf only the first action and the read per value, two-field "
+                   "tasks: appends to a shared file)")
 
 SIG_CF = "inplace-mutation-error-swallowed-under-cf:successful-result-already-saved"
 SIG_PYCOPY = "copy-mode-ignored-for-python-task:body-receives-original-file"
@@ -155,7 +165,33 @@ def _check_once(case):
         root, log = base / "root", str(base / "log")
         task_kind, worker, prog = case["task"], case["worker"], case["prog"]
         is_file = task_kind != "mutator"
-        if is_file:
+        two = task_kind in gen.TWO_FILE_TASKS
+        if two:
+            from fileformats.generic import File
+
+            content = bytes.fromhex(case["value"][2])
+            modes, wr, action = case["modes"], case["write"], prog[1]
+            fpaths = [base / "in" / case["value"][1]]
+            fpaths.append(fpaths[0] if case["same"] else base / "in2" / case["value"][1])
+            contents = {}
+            for i, fp in enumerate(fpaths):
+                if fp not in contents:
+                    fp.parent.mkdir(parents=True)
+                    contents[fp] = content + (b"" if i == 0 else b"-second")
+                    fp.write_bytes(contents[fp])
+                    os.utime(fp, (1_000_000_000, 1_000_000_000))
+            suffix = {"any": "Any", "copy": "Copy"}
+            name = "Two" + suffix[modes[0]] + suffix[modes[1]]
+            if task_kind == "sh_two":
+                script = base / "s.sh"
+                script.write_text(T.SH_TWO_READ if action[0] == "read" else T.SH_TWO_APPEND)
+                task = getattr(T, "Sh" + name)(script=str(script), a=File(fpaths[0]),
+                                                 b=File(fpaths[1]), w=str(wr), log=log)
+            else:
+                task = getattr(T, name)(a=File(fpaths[0]), b=File(fpaths[1]), w=wr, prog=prog,
+                                        log=log)
+            mutates = action[0] != "read"
+        elif is_file:
             content = bytes.fromhex(case["value"][2])
             fpath = base / "in" / case["value"][1]
             fpath.parent.mkdir(parents=True)
@@ -217,7 +253,32 @@ def _check_once(case):
             recs.append(dict(signature=sig, observed=short(raised) if raised else runs,
                              expected="body executed once", detail=where))
             return recs
-        if is_file:
+        if two:
+            now = {fp: fp.read_bytes() for fp in contents}
+            changed = sorted(fp.parent.name for fp in contents if now[fp] != contents[fp])
+            received = list(out.out) if out is not None and task_kind == "file_two" else None
+            tag = f"{task_kind}:{modes[0]}-{modes[1]}:{'same' if case['same'] else 'different'}-file"
+            where += (f"; modes={modes} same={case['same']} body works on field {'ab'[wr]}; body "
+                      f"received {received!r}; raised: {short(raised) if raised else None}")
+            if modes[wr] == "copy":
+                # the body only ever touched what a copy-mode field handed to it
+                if changed:
+                    recs.append(dict(signature="copy-mode-original-file-modified:" + tag,
+                                     observed={k.parent.name: v.hex() for k, v in now.items()},
+                                     expected="every original file keeps its bytes", detail=where))
+                elif raised is not None and not mutates:
+                    recs.append(dict(signature=exception_signature(raised, "unmodified-input-raises"),
+                                     observed=short(raised), expected="no error", detail=where))
+            else:
+                if changed and raised is None:
+                    sig = (SIG_CF if worker == "cf" and swallowed else
+                           f"inplace-file-modification-not-reported:{worker}:{tag}")
+                    recs.append(dict(signature=sig, observed=f"changed originals {changed}, call returned",
+                                     expected="an error", detail=where))
+                if not changed and raised is not None:
+                    recs.append(dict(signature=exception_signature(raised, "unmodified-input-raises"),
+                                     observed=short(raised), expected="no error", detail=where))
+        elif is_file:
             now = fpath.read_bytes()
             changed = now != content
             received = None
@@ -281,6 +342,9 @@ def _labels(case):
     act = case["prog"][1][0]
     mut = act not in ("read", "noop")
     labels = [case["task"], case["worker"], "mutating" if mut else "reading"]
+    if case["task"] in gen.TWO_FILE_TASKS:
+        labels.append("two_fields_" + ("same_file" if case["same"] else "different_files"))
+        labels.append("body_works_on_" + case["modes"][case["write"]] + "_mode_field")
     if case["task"] == "mutator":
         labels.append("target_" + _target_kind(case["value"], case["prog"][0]))
         labels.append("nested_target" if case["prog"][0] else "root_target")
